@@ -1,5 +1,6 @@
 import GrogModel.Drv.Proto
 import GrogModel.Build
+import GrogModel.DirVal
 open Lean
 
 /-
@@ -35,7 +36,7 @@ def serOpt : Option Val → Bytes
 
 def serCmd (c : Cmd) : Bytes :=
   frList [c.salt, natBytes c.beh, frList (c.writes.map serOutDef),
-          frList (c.sets.map fun pv => fr pv.1 ++ fr pv.2)]
+          frList (c.sets.map fun pv => fr pv.1 ++ fr pv.2), (if c.split then [49] else [48])]
 
 def serKey (ks : KeyState Bytes) : Bytes :=
   frList [ks.label, serCmd ks.cmd,
@@ -56,18 +57,42 @@ def common (v : View) : Option Bytes :=
     | some c => acc ++ str "I " ++ pv.1 ++ nl ++ c
     | none => acc) []
   v.deps.foldl (fun acc pv => match acc, pv.2 with
-    | some a, some c => some (a ++ str "D " ++ pv.1 ++ nl ++ c)
+    | some a, some c => some (a ++ str "D " ++ pv.1 ++ nl ++ (match DirVal.decTree c with
+        | some t => DirVal.listing t
+        | none => c))
     | _, _ => none) (some ins)
 
-def body (salt : Bytes) (o : OutDef) (com : Bytes) : Val :=
+/-- `/` → `_` -/
+def flat (p : Bytes) : Bytes := p.map (fun c => if c == 47 then 95 else c)
+
+/-- value of the directory a command writes: `a.txt`, `sub/b.txt`, a symlink `link -> a.txt` and one entry
+    `in/<flattened path>` per input file it read (so the set of entries follows the inputs) -/
+def dirVal (b : Bytes) (ins : List (Path × Val)) : Val :=
+  let fixed : List (Bytes × DirVal.Ent) :=
+    [(str "./a.txt", .file b), (str "./link", .link (str "a.txt")), (str "./sub/b.txt", .file (b ++ str "+" ++ nl))]
+  let per := ins.map fun pc => (str "./in/" ++ flat pc.1, DirVal.Ent.file pc.2)
+  DirVal.encTree (DirVal.ofList (fixed ++ per))
+
+def body (salt : Bytes) (o : OutDef) (com : Bytes) (ins : List (Path × Val)) : Val :=
   let b := str "T " ++ salt ++ str " " ++ o.path ++ nl ++ com
-  if o.dir then str "F ./a.txt" ++ nl ++ b ++ str "F ./sub/b.txt" ++ nl ++ b ++ str "+" ++ nl else b
+  if o.dir then dirVal b ins else b
+
+def presentInputs (v : View) : List (Path × Val) :=
+  v.inputs.filterMap fun pv => pv.2.map fun c => (pv.1, c)
+
+/-- splitter: output k = "S\n" ++ content of input (k mod n) -/
+def splitOuts (ws : List OutDef) (ins : List (Path × Val)) : Outs :=
+  (ws.zip (List.range ws.length)).map fun oi =>
+    (oi.1, str "S" ++ nl ++ (match ins[oi.2 % ins.length]? with | some pc => pc.2 | none => []))
 
 def concreteRun (c : Cmd) (v : View) : RunRes :=
   if c.beh != 0 then { exit0 := false, outs := [], sets := [] } else
   match common v with
   | none => { exit0 := false, outs := [], sets := [] }
-  | some com => { exit0 := true, outs := c.writes.map (fun o => (o, body c.salt o com)), sets := c.sets }
+  | some com =>
+    let ins := presentInputs v
+    if c.split && !ins.isEmpty then { exit0 := true, outs := splitOuts c.writes ins, sets := c.sets }
+    else { exit0 := true, outs := c.writes.map (fun o => (o, body c.salt o com ins)), sets := c.sets }
 
 /-! JSON decoding -/
 
@@ -95,7 +120,7 @@ def getOutDefs (j : Json) (k : String) : Except String (List OutDef) := do
 
 def getCmd (j : Json) : Except String Cmd := do
   pure { salt := ← getBytes j "salt", beh := ← getNat j "beh", writes := ← getOutDefs j "writes",
-         sets := ← getBytesPairs j "sets" }
+         sets := ← getBytesPairs j "sets", split := ← getBool j "split" }
 
 def getTarget (j : Json) : Except String Target := do
   let c ← j.getObjVal? "cmd"
@@ -103,6 +128,25 @@ def getTarget (j : Json) : Except String Target := do
          outs := ← getOutDefs j "outs", deps := ← getBytesList j "deps", hdeps := ← getBytesList j "hdeps",
          ldeps := ← getBytesList j "ldeps", fp := ← getBytesPairs j "fp", plat := ← getBytes j "plat",
          noCache := ← getBool j "noCache", checks := ← getBytesOptPairs j "checks" }
+
+/-- tampering with a directory output in place (only if a directory is there) -/
+def tamperDir (v : Val) (op : String) : Val :=
+  match DirVal.decTree v with
+  | none => v
+  | some t =>
+    let t' := match op with
+      | "extra" => DirVal.put t (str "./zz_stale.txt") (.file (str "stale" ++ nl))
+      | "extrasub" => DirVal.put t (str "./in/zz_stale.in") (.file (str "stale" ++ nl))
+      | "mod" => DirVal.put t (str "./a.txt") (.file (str "modified" ++ nl))
+      | "rmfile" => DirVal.remove t (str "./sub/b.txt")
+      | _ => t
+    DirVal.encTree t'
+
+def applyTampers (fs : FS) : List (Path × String) → FS
+  | [] => fs
+  | po :: l => applyTampers (match fs po.1 with
+      | some v => upd fs po.1 (some (tamperDir v po.2))
+      | none => fs) l
 
 def defsOf (ts : List Target) : Defs := fun l => ts.find? (fun t => t.label == l)
 
@@ -116,13 +160,17 @@ inductive DStep where
   | plain (s : Step)
   | build (b : BuildReq)
   | dropAt (p : Path)
+  | editT (defs : Defs) (writes : List (Path × Option Val)) (tampers : List (Path × String))
 
 def getStep (j : Json) : Except String DStep := do
   let k ← getStr j "k"
   match k with
   | "edit" =>
     let ts ← (← getArr j "targets").toList.mapM getTarget
-    pure (.plain (.edit (defsOf ts) (← getBytesOptPairs j "writes")))
+    let ws ← getBytesOptPairs j "writes"
+    let tj ← getArr j "tampers"
+    let tampers ← tj.toList.mapM fun e => do pure ((← getBytes e "path"), (← getStr e "op"))
+    pure (.editT (defsOf ts) ws tampers)
   | "taint" => pure (.plain (.taint (← getBytesList j "labels")))
   | "drop" => pure (.dropAt (← getBytes j "path"))
   | "build" =>
@@ -138,7 +186,7 @@ def jOpt : Option Val → Json
 def simulate : Handler := fun j => do
   let fxj ← j.getObjVal? "fx"
   let fx : Fixes := { gateChecks := ← getBool fxj "gateChecks", syncTaint := ← getBool fxj "syncTaint",
-                      rerunOnce := ← getBool fxj "rerunOnce", minValidate := ← getBool fxj "minValidate" }
+                      rerunOnce := ← getBool fxj "rerunOnce", minValidate := ← getBool fxj "minValidate", loadFault := ← getBool fxj "loadFault" }
   let P : Params Bytes := { K := serKey, run := concreteRun, fx := fx }
   let files ← getBytesPairs j "files"
   let steps ← (← getArr j "steps").toList.mapM getStep
@@ -148,6 +196,9 @@ def simulate : Handler := fun j => do
     let (w, outs) := acc
     match st with
     | .plain s => (step P w s, outs)
+    | .editT defs ws tampers =>
+      let w1 := step P w (.edit defs ws)
+      ({ w1 with fs := applyTampers w1.fs tampers }, outs)
     | .dropAt p => (match w.fs p with
         | some v => (step P w (.dropBlob v), outs)
         | none => (w, outs))
